@@ -183,11 +183,17 @@ def tr_case(draw, tier='quick', focus=None):
         if mode == 'surf-tr+trcl':
             # one of the surfaces also carries its own transformation: the
             # two motions compose (surface moved first, then the cell)
-            spec_s, lab_s = draw(gen.tr_spec())
-            trn_s = 40 + draw(st.integers(1, 9))
-            deck['transforms'].append({'id': trn_s, 'spec': spec_s})
-            deck['surfaces'][0]['tr'] = trn_s
-            labels += ['surf:' + l for l in lab_s]
+            if 'num' in ref and draw(st.booleans()):
+                # the surface card and the cell use the same TR card (the
+                # surface is moved twice by the same motion)
+                deck['surfaces'][0]['tr'] = ref['num']
+                labels.append('same-tr-for-surface-and-cell')
+            else:
+                spec_s, lab_s = draw(gen.tr_spec())
+                trn_s = 40 + draw(st.integers(1, 9))
+                deck['transforms'].append({'id': trn_s, 'spec': spec_s})
+                deck['surfaces'][0]['tr'] = trn_s
+                labels += ['surf:' + l for l in lab_s]
         deck['cells'].append(md.cell(cid, 0, None, expr, imp={'n': 1},
                                      trcl=ref))
         other = cid + draw(st.sampled_from([1, 7]))
